@@ -196,7 +196,8 @@ def expr_text(e, ctx=None):
         return {"lambda": "(lambda: %s)()", "lamarg": "(lambda x, len=None: x)(%s)", "listcomp": "[%s for _z in (1,)][0]",
                 "genexp": "list(%s for _z in (1,))[0]", "cond": "(%s if True else None)", "dictitem": "{'k': %s}['k']",
                 "setcomp": "list({_z: %s for _z in (1,)}.values())[0]", "paren": "(%s)",
-                "ltcond": "(%s if 1 < 2 else None)", "ampand": "(1 & 3 and %s)"}[e["w"]] % inner
+                "ltcond": "(%s if 1 < 2 else None)", "ampand": "(1 & 3 and %s)",
+                "nlparen": "(%s\n       )", "dsp": "(%s  if  True  else  None)"}[e["w"]] % inner
     if x == "attr":
         return "%s.%s" % (expr_text(e["e"]), e["a"])
     if x == "skeys":
@@ -436,15 +437,23 @@ def concretize(p, perm=0, style=None):
                 else:
                     kind, aname, parts = ent
                     # statement attributes on lines of their own in some plans (line numbers of error sites)
-                    c.add(("\n    " if (perm % 100) % 2 == 1 else " ") + aname + '="')
+                    ml = (perm % 100) % 2 == 1
+                    c.add(("\n    " if ml else " ") + aname + '="')
                     for part in parts:
                         if isinstance(part, tuple):
                             _, site, txt = part
                             enc = _attr_escape(txt)
                             off = c.add(enc)
                             c.sites[site] = {"text": txt, "offset": off, "encoded": enc, "tmpl": c.cur}
+                        elif ml and part == "; ":
+                            # multi-line plan: one clause per line, the closing quote on a line of its own
+                            c.add(";\n        ")
                         else:
                             c.add(part)
+                    last = [pt for pt in parts if isinstance(pt, tuple)]
+                    if ml and kind in ("define", "attributes", "content", "replace", "condition", "repeat") \
+                            and last and "string:" not in last[-1][2]:
+                        c.add("\n    ")
                     c.add('"')
             sc = it.get("selfclose", False)
             suffix = " />" if sc else ">"
